@@ -293,6 +293,7 @@ func runC13(rc *RunCtx) {
 	defer s.Activate()()
 	dn := NewDevNet(s, devSeed)
 	dn.ASCIIEvery = []int{2, 1, 4}[t.Choose(3)]
+	dn.SpecialEvery = []int{0, 3, 2}[t.Choose(3)]
 	var resp packet.Response
 	var snapshot []byte
 	var fetchErr error
